@@ -938,6 +938,10 @@ fn split_text(s: &str) -> Vec<String> {
             if c != '\\' && !c.is_ascii_whitespace() {
                 // Non-whitespace character, move onto main loop.
                 is_leading_whitespace = false;
+                if is_backslash_prev {
+                    // The backslash was no line continuation: it opens an escaped identifier.
+                    x.push('\\');
+                }
             } else if is_backslash_prev && c == '\n' {
                 // Drop the \n from leading continuation, then move onto main loop.
                 is_leading_whitespace = false;
